@@ -382,6 +382,31 @@ func TestC05(t *testing.T) {
 		r.Exhaustive("cells", !r.Replaying())
 	}
 
+	if r.WantLayer("types", true) {
+		// one every-member document per vocabulary type name: the reader's tables switch on the name
+		n := 0
+		for _, st := range vocab.StructTypes {
+			for _, tn := range vocab.NamesFor(st.Name()) {
+				for ri, ch := range []docChooser{fixedChoices{false}, fixedChoices{true}} {
+					id := fmt.Sprintf("r%d %s[%s]", ri, st.Name(), tn)
+					if !r.WantCell(id) {
+						continue
+					}
+					n++
+					x := vocab.Everything(st, false)
+					sv, _ := vocab.StructOf(x)
+					sv.FieldByName("Type").SetString(string(tn))
+					doc := writeDoc(x, ch)
+					ds := c05Check(doc, x, st.Name()+".*", false)
+					r.Case(string(doc), true, "types")
+					reportAll(r, "types", id, ds, map[string]interface{}{"type": string(tn), "document": string(doc)})
+				}
+			}
+		}
+		r.Cells(n, n)
+		r.Exhaustive("types", !r.Replaying())
+	}
+
 	if r.WantLayer("mocks", true) {
 		files, _ := filepath.Glob("/repo/tests/mocks/*.json")
 		sort.Strings(files)
